@@ -160,6 +160,10 @@ func (h *Hook) updateClient(cl *mqtt.Client) {
 		return
 	}
 
+	if errors.Is(cl.StopCause(), packets.ErrSessionTakenOver) {
+		return // the stored record now belongs to the session which took this one over
+	}
+
 	props := cl.Properties.Props.Copy(false)
 	in := &storage.Client{
 		ID:              cl.ID,
